@@ -53,9 +53,21 @@ def collide_case(rng):
     return {"steps": steps, "env": gen.ENV}
 
 
+def retained_case(rng):
+    """several Output calls of different content (and formats) in one process: bytes handed out earlier must not
+    change (a writer that recycles its buffer breaks byte-identity for a caller who kept the result)"""
+    steps = []
+    for i in range(rng.randint(2, 4)):
+        steps.append({"merge": {"id": f"D{i}", "parents": [], "data": {"svc%d" % i: gen.tree(rng, 2), "n": i}}})
+        steps.append({"out": rng.choice(["json", "json", "yaml", "toml", "json-pretty", "jsonl"])})
+    return {"steps": steps, "env": gen.ENV}
+
+
 def gen_case(rng):
     r0 = rng.random()
-    if r0 < 0.08:
+    if r0 < 0.05:
+        return retained_case(rng)
+    if r0 < 0.1:
         c = collide_case(rng)
     elif r0 < 0.3:
         c = manykey_case(rng)
@@ -91,6 +103,8 @@ def run_batch(rep, cases, rep_n, par_n, binary="bklgo", fresh=0):
             continue
         if "nondet" in r:
             bad.append((c, r, f"{r.get('mode')} runs of the same input differ"))
+        elif "retained_changed" in r:
+            bad.append((c, r, "bytes returned by an earlier Output call changed after a later Output call"))
     if fresh:
         sample = list(range(0, len(cases), max(1, len(cases) // fresh)))[:fresh]
         for k in range(2):
